@@ -5,21 +5,23 @@
 (* ellipsoid (the harness turns it into the integer-metre ECEF base point),      *)
 (* integer offsets of the points from the base (metres), a spanning set of       *)
 (* vectors plus optional redundant ones, optional distances (directed: from, to),*)
-(* heights and height differences, a status pattern (every point has a status of *)
-(* its horizontal position n,e and one of its height u: fixed / free /           *)
+(* heights, height differences, zenith angles, horizontal angles (also above     *)
+(* half a circle) and observed coordinates, a status pattern (every point has a  *)
+(* status of its horizontal position n,e and one of its height u: fixed / free / *)
 (* constrained), a covariance variant for the 3x3 vector blocks, a noise         *)
 (* pattern, a displacement pattern of the given coordinates of the adjusted      *)
 (* components and the order of the input records.                                *)
 (* Laws: Truth (noise 0: adjusted = generating coordinates whatever the given    *)
 (* coordinates of the adjusted components are), SetAlgorithm and PermuteRecords  *)
 (* change nothing, parameters = number of components that are not fixed,         *)
-(* equations = 3 vectors + distances + heights + height differences,             *)
+(* equations = 3 vectors + distances + heights + height differences + zenith     *)
+(* angles + angles + 3 observed points,                                          *)
 (* redundancy = equations - parameters + defect with defect = 3 for a            *)
 (* constrained-only network (translations) and 0 as soon as fixed components or  *)
 (* observed heights remove the three translations, and the project-equation dump *)
 (* adjusted by the general class Adj gives the same corrections.                 *)
 EXTENDS Integers, Sequences, FiniteSets, TLC, Json
-CONSTANTS Keep, Seed
+CONSTANTS Keep, Keep2, Seed
 Places == {"equator", "midlat", "nearpole", "south", "antimeridian"}
 (* offsets (east-ish, north-ish, up-ish are irrelevant: plain ECEF metres) *)
 Pts == << <<0, 0, 0>>, <<8000, -3000, 1200>>, <<-5000, 6000, -2500>>, <<2500, 9000, 4000>>, <<-7000, -6500, 900>> >>
@@ -33,33 +35,42 @@ Status(p, i) ==
     [] p = "constr" -> <<"constr", "constr">>
     [] p = "split"  -> IF i = 1 THEN <<"fixed", "free">> ELSE IF i = 2 THEN <<"free", "fixed">> ELSE FF
     [] p = "mixed"  -> IF i = 1 THEN <<"fixed", "fixed">> ELSE IF i = 2 THEN <<"free", "fixed">> ELSE IF i = 3 THEN <<"constr", "free">> ELSE <<"free", "constr">>
-    [] OTHER        -> IF i = 1 THEN <<"fixed", "free">> ELSE FF        \* "hfix": the heights must come from observed heights
-Patterns == {"fix1", "fix2", "constr", "split", "mixed", "hfix"}
+    [] p = "hfix"   -> IF i = 1 THEN <<"fixed", "free">> ELSE FF        \* the heights must come from observed heights
+    [] OTHER        -> FF                                               \* "xyzdatum": the datum comes from observed coordinates
+Patterns == {"fix1", "fix2", "constr", "split", "mixed", "hfix", "xyzdatum"}
 DistSets == << <<>>, << <<1, 2>>, <<3, 2>> >>, << <<2, 1>>, <<2, 3>>, <<3, 1>> >> >>
 HeightSets == << <<>>, <<1>>, <<2, 3>> >>
 HdiffSets == << <<>>, << <<1, 2>>, <<2, 3>> >> >>
+ZenSets == << <<>>, << <<1, 2>>, <<2, 3>>, <<3, 1>> >> >>
+AngSets == << <<>>, << <<1, 3, 2>>, <<2, 1, 3>> >>, << <<1, 2, 3>>, <<3, 2, 1>>, <<2, 3, 1>> >> >>      \* the third set has angles above and below half a circle
+XyzSets == << <<>>, <<2>>, <<1, 3>> >>
 ExtraSets == { {}, {5}, {7}, {5, 6}, {6, 7, 8}, {5, 6, 7, 8} }
 NonFixed(p, np) == 2 * Cardinality({i \in 1..np : Status(p, i)[1] # "fixed"}) + Cardinality({i \in 1..np : Status(p, i)[2] # "fixed"})
 VARIABLE net
 Init == net = [k |-> 0]
 Choose == /\ net.k = 0
-          /\ \E np \in 3..5, place \in Places, extra \in ExtraSets, status \in Patterns, cov \in 0..2, noise \in 0..2, perm \in 0..3,
-                ds \in 1..3, hs \in 1..3, dh \in 1..2, displ \in 0..1 :
+          /\ \E np \in 3..5, place \in Places, extra \in ExtraSets, status \in Patterns, cov \in 0..2 :
                /\ \A e \in extra : Edges[e][1] <= np /\ Edges[e][2] <= np
-               /\ (status = "hfix" => hs > 1)                       \* without observed heights the translation along the vertical stays free
-               /\ (status = "constr" => displ = 0 /\ hs = 1 /\ dh = 1)   \* the datum of a constrained network is its given coordinates; ellipsoidal heights and
-                                                                  \* height differences depend (weakly) on the horizontal position and would change the defect
-               /\ ((np * 7 + Len(place) * 3 + Cardinality(extra) * 11 + cov * 5 + noise * 13 + perm * 17 + Len(status) * 19 + ds * 23 + hs * 29 + dh * 31 + displ * 37 + Seed) % Keep = 0)
-               /\ net' = [k |-> 1, np |-> np, place |-> place,
-                          vectors |-> [i \in 1..(np - 1) |-> Edges[i]] \o
-                                      [i \in 1..Cardinality(extra) |-> Edges[CHOOSE e \in extra : Cardinality({x \in extra : x < e}) = i - 1]],
-                          dists |-> DistSets[ds], heights |-> HeightSets[hs], hdiffs |-> HdiffSets[dh],
-                          status |-> status, pstat |-> [i \in 1..np |-> Status(status, i)], displ |-> displ,
-                          cov |-> cov, noise |-> noise, perm |-> perm,
-                          offsets |-> [i \in 1..np |-> Pts[i]],
-                          parameters |-> NonFixed(status, np),
-                          equations |-> 3 * ((np - 1) + Cardinality(extra)) + Len(DistSets[ds]) + Len(HeightSets[hs]) + Len(HdiffSets[dh]),
-                          defect |-> IF status = "constr" THEN 3 ELSE 0]
+               /\ ((np * 7 + Len(place) * 3 + Cardinality(extra) * 11 + cov * 5 + Len(status) * 19 + Seed) % Keep = 0)
+               /\ \E noise \in 0..2, perm \in 0..3, ds \in 1..3, hs \in 1..3, dh \in 1..2, displ \in 0..1, zs \in 1..2, as \in 1..3, xs \in 1..3 :
+                    /\ (status = "xyzdatum" <=> xs > 1)
+                    /\ (status = "hfix" => hs > 1)                  \* without observed heights the translation along the vertical stays free
+                    /\ (status = "constr" => displ = 0 /\ hs = 1 /\ dh = 1 /\ zs = 1 /\ as = 1)
+                         \* the datum of a constrained network is its given coordinates; ellipsoidal heights, height differences and
+                         \* angles referred to the local vertical depend (weakly) on the position and would change the defect
+                    /\ ((noise * 13 + perm * 17 + ds * 23 + hs * 29 + dh * 31 + displ * 37 + zs * 41 + as * 43 + xs * 53 + np + cov + Seed) % Keep2 = 0)
+                    /\ net' = [k |-> 1, np |-> np, place |-> place,
+                               vectors |-> [i \in 1..(np - 1) |-> Edges[i]] \o
+                                           [i \in 1..Cardinality(extra) |-> Edges[CHOOSE e \in extra : Cardinality({x \in extra : x < e}) = i - 1]],
+                               dists |-> DistSets[ds], heights |-> HeightSets[hs], hdiffs |-> HdiffSets[dh],
+                               zeniths |-> ZenSets[zs], angles |-> AngSets[as], xyzobs |-> XyzSets[xs],
+                               status |-> status, pstat |-> [i \in 1..np |-> Status(status, i)], displ |-> displ,
+                               cov |-> cov, noise |-> noise, perm |-> perm,
+                               offsets |-> [i \in 1..np |-> Pts[i]],
+                               parameters |-> NonFixed(status, np),
+                               equations |-> 3 * ((np - 1) + Cardinality(extra)) + Len(DistSets[ds]) + Len(HeightSets[hs]) + Len(HdiffSets[dh])
+                                             + Len(ZenSets[zs]) + Len(AngSets[as]) + 3 * Len(XyzSets[xs]),
+                               defect |-> IF status = "constr" THEN 3 ELSE 0]
 Next == Choose
 Spec == Init /\ [][Next]_net
 Emit == net.k = 1 => PrintT("CASE " \o ToJson(net @@ [redundancy |-> net.equations - net.parameters + net.defect]))
